@@ -92,6 +92,8 @@ class Analysis:
             def fix(e, lvl=lvl):
                 if e[0] == 'super':
                     return ('ref', below(e[1], lvl))
+                if e[0] == 'call' and e[1].startswith('super.'):
+                    e = ('call', below(e[1][len('super.'):], lvl), e[2])
                 return map_children(e, fix)
             stmts = []
             for s in G['stmts']:
